@@ -219,6 +219,54 @@ def gen_case(rng: random.Random, tier: str, bias: str = ''):
                 chooser=list(ch) + [early], seed=rng.randrange(1 << 30))
 
 
+def preempt_chooser(plan, order='low'):
+    """Bounded-preemption schedules: run the current thread as long as it can run; when it cannot, the
+    lowest-id (order='low') or highest-id ('high') enabled thread; plus the forced context switches of
+    `plan = [[k, r], ...]`: at the k-th scheduling decision switch to the r-th other enabled thread."""
+    plan = {int(k): int(r) for k, r in plan}
+    st = {'k': 0}
+
+    def choose(s, enabled, me):
+        k = st['k']
+        st['k'] += 1
+        if k in plan:
+            others = [t for t in enabled if t is not me]
+            if others:
+                return others[plan[k] % len(others)]
+        if me in enabled:
+            return me
+        return enabled[0] if order == 'low' else enabled[-1]
+    return choose
+
+
+# scheduling decisions of the non-preemptive run (measured; larger values only repeat the base run)
+def _decisions(nforks, n):
+    return 30 + nforks * 24 * (n + 1)
+
+
+def enum_cases(nforks, bs, n, src, depth, rng=None, limit=None):
+    """all schedules with exactly `depth` forced preemptions (depth 1: all positions x both default
+    orders; depth 2: all pairs, or `limit` random pairs) for one small configuration"""
+    L = _decisions(nforks, n)
+    out = []
+    base = dict(nforks=nforks, bs=bs, n=n, src=src, line=True, seed=0)
+    if depth == 0:
+        return [dict(base, chooser=['preempt', [], o]) for o in ('low', 'high')]
+    if depth == 1:
+        for o in ('low', 'high'):
+            for k in range(L):
+                for r in range(nforks - 1):
+                    out.append(dict(base, chooser=['preempt', [[k, r]], o]))
+        return out
+    pairs = [(a, b) for a in range(L) for b in range(a + 1, L)]
+    if limit is not None and len(pairs) > limit:
+        pairs = rng.sample(pairs, limit)
+    for (a, b) in pairs:
+        o = 'low' if rng is None else rng.choice(['low', 'high'])
+        out.append(dict(base, chooser=['preempt', [[a, 0], [b, 0 if rng is None else rng.randrange(max(1, nforks - 1))]], o]))
+    return out
+
+
 def boundary_cases():
     """fixed corpus: every ending x lengths 0, 1, window, window+3 x 2/3 forks x a few schedules"""
     out = []
@@ -336,7 +384,10 @@ def run_case(case):
         lk = ctx.src_lock
         return lk is not None and lk.locked()
 
-    chooser = detsched.make_chooser(tuple(case['chooser']), case['seed'])
+    if case['chooser'][0] == 'preempt':
+        chooser = preempt_chooser(case['chooser'][1], case['chooser'][2] if len(case['chooser']) > 2 else 'low')
+    else:
+        chooser = detsched.make_chooser(tuple(case['chooser']), case['seed'])
     try:
         v, e, s = detsched.run(main, chooser, max_steps=case.get('max_steps', 12000))
     finally:
